@@ -636,7 +636,13 @@ func Generate(t *rapid.T, cfg Cfg) *Layout {
 	root := p("api/root" + ext)
 	g.doc(root)
 	ndocs := rapid.IntRange(0, 3).Draw(t, "ndocs")
-	for _, f := range []string{"api/aux", "api/sub/deep", "shared/common"}[:ndocs] {
+	others := []string{"api/aux", "api/sub/deep", "shared/common"}
+	if g.chance(3, "stemtwin") {
+		// a document next to the root that shares its stem (root.v2.json next to root.json)
+		others[0] = "api/root.v2"
+		g.feat["root-stem-twin"]++
+	}
+	for _, f := range others[:ndocs] {
 		g.doc(p(f + ext))
 	}
 	depth := rapid.IntRange(2, 4).Draw(t, "depth")
